@@ -89,6 +89,9 @@ func c04Decl(variant int, opts flags.Options) *decl.Decl {
 		// an Unmarshaler with a value receiver; an integer whose base is inferred from the prefix (base 0), holding a value already
 		{Field: "Sink", Long: "sink", Type: decl.TSink},
 		{Field: "Auto", Long: "auto", Type: decl.TInt, Base: "0", Initial: 5},
+		// bases no numeral system has (every value given to them is refused; holding a value must not break other parses)
+		{Field: "Odd", Long: "oddbase", Type: decl.TInt, Base: "99", Initial: 7},
+		{Field: "One", Long: "unarybase", Type: decl.TUint8, Base: "1", Initial: uint8(200)},
 		{Field: "NilCb", Long: "nilcb", Type: decl.TFuncS, NilFunc: true}, // a callback the program never assigned
 		{Field: "MapCh", Long: "mapchoice", Type: decl.TMapSS, Choices: []string{"k:a", "k:b"}},
 	}}
@@ -99,6 +102,8 @@ func c04Decl(variant int, opts flags.Options) *decl.Decl {
 	top.Cmds = []*decl.Cmd{cmd, dbg}
 	if variant == 2 {
 		top.SubOptional = false // a command is required: unknown words reach the unknown-command diagnosis
+		// ... where every visible name is compared with the word: one with a two-byte character in the middle, one ending in a three-byte character
+		top.Cmds = append(top.Cmds, &decl.Cmd{Field: "Dem2", Name: "démarrer"}, &decl.Cmd{Field: "Jp", Name: "cm日"})
 	}
 	if variant == 3 {
 		// built through the API: an executable command whose Execute returns an ErrHelp-typed error of its own
